@@ -1089,3 +1089,94 @@ mod tests {
         assert!(matches!(plan, FetchPlan::Full));
     }
 }
+
+/// Verification hook (guarded by `--cfg scylla_verif`, add-only): runs the real [`FetchPlan`]
+/// bookkeeping and one real poll of a [`PendingFetches`] holding scripted futures. No behaviour
+/// of its own.
+#[cfg(scylla_verif)]
+#[allow(missing_docs)]
+pub mod verif_hooks {
+    use super::{ClientRoutesFetchRequest, FetchOutcome, FetchPlan, PendingFetches, TopologyUpdateGuard};
+    use crate::cluster::metadata::Metadata;
+    use std::collections::HashSet;
+    use std::future::{Future, pending};
+    use std::pin::Pin;
+    use std::task::{Context, Poll, Waker};
+    use uuid::Uuid;
+
+    #[derive(Clone, Copy, Debug, PartialEq, Eq)]
+    pub enum PlanOp {
+        /// `note_full_needed`
+        Full,
+        /// `note_client_routes` with the single pair ("c", Uuid::from_u128(id))
+        Routes(u64),
+        /// `note_topology`
+        Topology,
+    }
+
+    /// View of a plan: (is `Full`, ids of the accumulated client-routes pairs sorted, topology flag).
+    pub type PlanView = (bool, Vec<u64>, bool);
+
+    fn view(plan: &FetchPlan) -> PlanView {
+        match plan {
+            FetchPlan::Full => (true, Vec::new(), false),
+            FetchPlan::Partial { client_routes, topology } => {
+                let mut ids: Vec<u64> = client_routes
+                    .as_ref()
+                    .map(|r| r.pairs.iter().map(|(_, h)| h.as_u128() as u64).collect())
+                    .unwrap_or_default();
+                ids.sort();
+                (false, ids, *topology)
+            }
+        }
+    }
+
+    /// Applies the operations to `FetchPlan::empty()`; the view after every operation.
+    pub fn run_plan(ops: &[PlanOp]) -> Vec<PlanView> {
+        let mut plan = FetchPlan::empty();
+        ops.iter()
+            .map(|op| {
+                match *op {
+                    PlanOp::Full => plan.note_full_needed(),
+                    PlanOp::Routes(id) => plan.note_client_routes(ClientRoutesFetchRequest {
+                        pairs: HashSet::from([("c".to_string(), Uuid::from_u128(id as u128))]),
+                    }),
+                    PlanOp::Topology => plan.note_topology(),
+                }
+                view(&plan)
+            })
+            .collect()
+    }
+
+    /// One poll of a `PendingFetches` whose slots hold futures that are complete (`Some(true)`),
+    /// not complete (`Some(false)`) or absent (`None`); `full = Some(_)` builds the `Full` variant
+    /// (the other two are then ignored). Returns the outcome (0 pending, 1 Full, 2 ClientRoutes,
+    /// 3 Topology) and which fetches are still in flight afterwards (full, client routes, topology).
+    pub fn poll_pending(full: Option<bool>, routes: Option<bool>, topology: Option<bool>) -> (u8, bool, bool, bool) {
+        let mut fetches: PendingFetches<'static> = match full {
+            Some(ready) => PendingFetches::Full {
+                fetch: if ready { Box::pin(async { Ok(TopologyUpdateGuard::new(Metadata::new_dummy(&[]))) }) } else { Box::pin(pending()) },
+            },
+            None => PendingFetches::Partial {
+                client_routes_fetch: routes.map(|ready| -> super::ClientRoutesFetch<'static> {
+                    if ready { Box::pin(async { Ok(None) }) } else { Box::pin(pending()) }
+                }),
+                topology_fetch: topology.map(|ready| -> super::TopologyFetch<'static> {
+                    if ready { Box::pin(async { Ok(TopologyUpdateGuard::new(Vec::new())) }) } else { Box::pin(pending()) }
+                }),
+            },
+        };
+        let outcome = match Pin::new(&mut fetches).poll(&mut Context::from_waker(Waker::noop())) {
+            Poll::Pending => 0,
+            Poll::Ready(FetchOutcome::Full(_)) => 1,
+            Poll::Ready(FetchOutcome::ClientRoutes(_)) => 2,
+            Poll::Ready(FetchOutcome::Topology(_)) => 3,
+        };
+        match &fetches {
+            PendingFetches::Full { .. } => (outcome, true, false, false),
+            PendingFetches::Partial { client_routes_fetch, topology_fetch } => {
+                (outcome, false, client_routes_fetch.is_some(), topology_fetch.is_some())
+            }
+        }
+    }
+}
